@@ -290,6 +290,9 @@ pub fn run(tier: Tier, _replay: Option<String>) -> i32 {
         }
         run.sample(json!({"transaction": rec.name, "resolved_inputs": utxos.len(), "cost_model_languages": rec.costs.iter().map(|(l, _)| *l).collect::<Vec<_>>()}));
     }
+    let (sims_b, txs_b) = crate::c19b::part(&mut run, tier);
+    evals += sims_b;
+    configs_ok += txs_b;
     run.set("recorded_transactions", recorded.len() as u64);
     run.set("configurations_that_evaluate", configs_ok);
     run.set("configurations_with_two_or_more_redeemers", multi);
